@@ -108,7 +108,9 @@ func runCheck(spec *Spec, o *runOpts) int {
 					nfull += r.Stats.ValidatedFull
 				}
 			}
-			fmt.Printf("   engine-vs-native differential: %d concrete traces agree (%d ran to completion, the rest stopped at the same assumption)\n", nval, nfull)
+			if len(results) > 0 && (nval > 0 || len(problems) > 0) {
+				fmt.Printf("   engine-vs-native differential: %d concrete traces agree (%d ran to completion, the rest stopped at the same assumption)\n", nval, nfull)
+			}
 			for _, pr := range problems {
 				inconclusive = append(inconclusive, "translator validation: "+pr)
 			}
@@ -256,6 +258,18 @@ func writeEvidence(spec *Spec, o *runOpts, loadS float64, results []*HarnessResu
 	states, transitions := 0, 0
 	funcs := map[string]bool{}
 	stubs := map[string]bool{}
+	for _, u := range spec.Units {
+		for file, subs := range u.Rewrite {
+			for _, sb := range subs {
+				stubs[fmt.Sprintf("source rewrite (%s %s): %q -> %q", u.Package, file, sb[0], sb[1])] = true
+			}
+		}
+		for file, subs := range u.NativeRewrite {
+			for _, sb := range subs {
+				stubs[fmt.Sprintf("source rewrite, native runs only (%s): %q -> %q", file, sb[0], sb[1])] = true
+			}
+		}
+	}
 	var samples []interface{}
 	q := map[string]interface{}{}
 	qs, qu, qk := 0, 0, 0
